@@ -39,7 +39,13 @@ func runC13(c *Ctx) {
 		var ea, eb error
 		if pi := mon.Guard(func() {
 			ka, s1a, s2a, ea = sm2.KeyExchangeA(cs.klen, cs.ida, cs.idb, cs.a.priv(), cs.b.pub(), cs.ra.priv(), cs.rb.pub())
+			keep("sm2.KeyExchangeA.k", ka)
+			keep("sm2.KeyExchangeA.s1", s1a)
+			keep("sm2.KeyExchangeA.s2", s2a)
 			kb, s1b, s2b, eb = sm2.KeyExchangeB(cs.klen, cs.ida, cs.idb, cs.b.priv(), cs.a.pub(), cs.rb.priv(), cs.ra.pub())
+			keep("sm2.KeyExchangeB.k", kb)
+			keep("sm2.KeyExchangeB.s1", s1b)
+			keep("sm2.KeyExchangeB.s2", s2b)
 		}); pi != nil {
 			rep.Violation("C13/KeyExchange/panic/"+pi.Func, pi.Value, w)
 			rep.Eval(cs.cls)
